@@ -1,9 +1,11 @@
 \* mode M, ideal handling: no deviation is switched on.  Depths are abstract (limit 100).
 CONSTANT Depths = {50, 150, 450}
+CONSTANT SelDepths = {50, 450}
 CONSTANT LightDepths = {50}
 CONSTANT Sizes = {1000}
 CONSTANT Cuts = {0, 7, 19}
 CONSTANT SafeDepth = 100
+CONSTANT SafeSel = 200
 CONSTANT SafeChain = 100
 CONSTANT HeavyTransports = {"execute", "json", "ws"}
 CONSTANT Wide = FALSE
